@@ -179,6 +179,7 @@ func trailerAfterServerDeadline(r *Run) {
 }
 
 func suiteC11(r *Run) {
+	hsSuite(r, "C11")
 	undecodableStreamRequests(r)
 	trailerAfterServerDeadline(r)
 	r.Rule = "HTTP requests of all shapes (methods, Content-Type strings with parameters/case/unknown types, header sets with invalid base64 in -bin headers and bad GRPC-Timeout, valid/garbage/empty bodies) against every registered method kind through httptest.ResponseRecorder and the real Server (404 via the mux); handler-call counters; reply frames parsed. Non-trivial: request reaches a gate decision other than the default success path or carries a handler script; distinct by full request tuple."
